@@ -179,6 +179,30 @@ def run_case(run, drv, case_seed):
                           argv[0] if argv and not argv[0].startswith("-") else "implicit",
                           m["version"], damaged, outkind if kind == "create" else None],
                          damaged or True, sample=c, classes=[kind, "raised:" + str(raised)])
+            # the library creator without an output path: exactly <cwd>/<name>.torrent is written
+            if os.path.exists(m["root"]) and rng.random() < 0.5:
+                default_out = os.path.join(work, name + ".torrent")
+                if os.path.lexists(default_out):
+                    os.remove(default_out)
+                before = snapshot(box)
+                raised = None
+                kind = {1: "v1", 2: rng.choice(["a2", "v2"]), 3: rng.choice(["a3", "hy"])}[m["version"]]
+                with effects.traced(fence=[box]) as tr:
+                    try:
+                        cls, extra = impl.creator(kind)
+                        from harness.common import quiet
+                        with quiet():
+                            cls(path=m["root"], piece_length=m["pl"], progress=0, **extra).write()
+                    except BaseException as exc:  # noqa
+                        raised = type(exc).__name__
+                diff = changed(before, snapshot(box))
+                c = dict(case, library_default_output=kind)
+                if raised or diff != [os.path.relpath(default_out, box)]:
+                    run.fail("impl-vs-spec", c, {"why": "library create without an output path did not write exactly "
+                                                        "<cwd>/<name>.torrent", "changed": diff[:5], "raised": raised})
+                run.case(["lib-default-out", kind], True, sample=c, classes=["lib-default-out"])
+                if os.path.lexists(default_out):
+                    os.remove(default_out)
             # rename: free target, then occupied target
             for occupied in (False, True, rng.choice(["dir", "link-to-dir", "link-to-file"])):
                 src = os.path.join(outdir, "torename.torrent")
